@@ -6,6 +6,8 @@ import sys
 import warnings
 
 warnings.simplefilter("ignore")
+if hasattr(sys, "set_int_max_str_digits"):
+    sys.set_int_max_str_digits(0)      # integers are exchanged exactly, however long
 
 
 class CaseTimeout(Exception):
@@ -36,7 +38,17 @@ def main():
         finally:
             signal.alarm(0)
         out.append(r)
-    json.dump(out, open(fout, "w"))
+    # one result that cannot be written (an object json does not know) must not take the others with it
+    texts = []
+    for r in out:
+        try:
+            texts.append(json.dumps(r))
+        except BaseException as e:  # noqa: BLE001
+            texts.append(json.dumps({"ok": False, "exc": "UnserialisableResult", "msg": f"{type(e).__name__}: {str(e)[:200]}"}))
+    with open(fout + ".tmp", "w") as f:
+        f.write("[" + ",".join(texts) + "]")
+    import os
+    os.replace(fout + ".tmp", fout)
 
 
 if __name__ == "__main__":
